@@ -10,7 +10,6 @@ import (
 	"github.com/projecteru2/core/store"
 	"github.com/projecteru2/core/types"
 
-	"github.com/alphadose/haxmap"
 	"github.com/google/uuid"
 )
 
@@ -19,8 +18,11 @@ const interval = 15 * time.Second
 // Helium .
 type Helium struct {
 	sync.Once
-	store     store.Store
-	subs      *haxmap.Map[uint32, entry]
+	store store.Store
+	// a plain map under a mutex: haxmap v1.2.0 loses entries (ForEach / Get do not see a live entry
+	// set after earlier entries were deleted), which left subscribers without any push
+	subsMu    sync.Mutex
+	subs      map[uint32]entry
 	interval  time.Duration
 	unsubChan chan uint32
 }
@@ -36,7 +38,7 @@ func New(ctx context.Context, config types.GRPCConfig, store store.Store) *Heliu
 	h := &Helium{
 		interval:  config.ServiceDiscoveryPushInterval,
 		store:     store,
-		subs:      haxmap.New[uint32, entry](),
+		subs:      map[uint32]entry{},
 		unsubChan: make(chan uint32),
 	}
 	if h.interval < time.Second {
@@ -54,11 +56,13 @@ func (h *Helium) Subscribe(ctx context.Context) (uuid.UUID, <-chan types.Service
 	key := ID.ID()
 	subCtx, cancel := context.WithCancel(ctx)
 	ch := make(chan types.ServiceStatus)
-	h.subs.Set(key, entry{
+	h.subsMu.Lock()
+	h.subs[key] = entry{
 		ch:     ch,
 		ctx:    subCtx,
 		cancel: cancel,
-	})
+	}
+	h.subsMu.Unlock()
 	return ID, ch
 }
 
@@ -95,9 +99,12 @@ func (h *Helium) start(ctx context.Context) {
 				}
 
 			case ID := <-h.unsubChan:
-				if entry, ok := h.subs.Get(ID); ok {
+				h.subsMu.Lock()
+				entry, ok := h.subs[ID]
+				delete(h.subs, ID)
+				h.subsMu.Unlock()
+				if ok {
 					entry.cancel()
-					h.subs.Del(ID)
 					close(entry.ch)
 				}
 
@@ -123,8 +130,16 @@ func (h *Helium) dispatch(ctx context.Context, status types.ServiceStatus) {
 			return
 		}
 	}
-	h.subs.ForEach(func(k uint32, v entry) bool {
-		f(k, v)
-		return true
-	})
+	// snapshot under the lock, deliver outside of it (a delivery may block on a slow subscriber)
+	h.subsMu.Lock()
+	keys := make([]uint32, 0, len(h.subs))
+	vals := make([]entry, 0, len(h.subs))
+	for k, v := range h.subs {
+		keys = append(keys, k)
+		vals = append(vals, v)
+	}
+	h.subsMu.Unlock()
+	for i := range keys {
+		f(keys[i], vals[i])
+	}
 }
